@@ -1,5 +1,6 @@
 import LekkerVerif.Properties.C02
 import LekkerVerif.Core.HierSolveSpec
+import LekkerVerif.Core.WFCheckSpec
 
 /-! # C02 (continued) — the *executable* hierarchical solve is the flat circuit
 
@@ -51,3 +52,13 @@ theorem C02_hier_level (sched : List (St F) → Option (Nat × Nat)) (cs : List 
       (HNet.levelNet comps links exposed).solveWith sched = .ok total ∧
       c = (HNet.levelNet comps links exposed).extract total :=
   HNet.solveH_node_inv sched cs links exposed c hs
+
+/-- `HNet.wfTreeB` (executable; evaluated by the driver on every hierarchy it solves and counted in the evidence as `hyp:WFTree`)
+decides the syntactic well-formedness the theorems above assume, so on a hierarchy that passes it the recursion's result is the
+operator of the flat circuit -/
+theorem C02_hier_checked (sched : List (St F) → Option (Nat × Nat)) (h : HNet F) (c : CompD F) (hwf : h.wfTreeB = true)
+    (hs : HNet.solveH sched h = .ok c) :
+    (h.wfTreeB = true ↔ HNet.WFTree h) ∧
+    ∃ T, h.flat.SolvedBy T ∧ h.flat.exposed = c.pins.map h.resolve ∧
+      ∀ x ∈ c.pins, ∀ y ∈ c.pins, T (h.resolve x) (h.resolve y) = c.sem x y :=
+  ⟨HNet.wfTreeB_iff h, HNet.checked_hier sched h c hwf hs⟩
